@@ -59,8 +59,25 @@ def make_malloc_stub(elem_kind_of):
     return stub
 
 
+_THROWERS = {'_ZSt24__throw_invalid_argumentPKc': '_ZTISt16invalid_argument', '_ZSt20__throw_out_of_rangePKc': '_ZTISt12out_of_range',
+             '_ZSt24__throw_out_of_range_fmtPKcz': '_ZTISt12out_of_range', '_ZSt20__throw_length_errorPKc': '_ZTISt12length_error', '_ZSt17__throw_bad_allocv': '_ZTISt9bad_alloc'}
+
+
 def stub_throw(eng, fr, ins, st, name, argv):
+    sym = _THROWERS.get(name)
+    if name == '__cxa_throw' and len(argv) > 1:
+        p = argv[1]
+        obj = getattr(p, 'obj', None)
+        nm = obj[1] if isinstance(obj, tuple) else str(obj)
+        mm = re.search(r'(_ZTI[\w$.]+)', nm or '')
+        sym = mm.group(1) if mm else None
+    if name != '__cxa_rethrow':          # a rethrow keeps the exception in flight
+        eng.set_thrown(st, sym)
     return ('raise',)
+
+
+def stub_first_arg(eng, fr, ins, st, name, argv):
+    return argv[0]
 
 
 def stub_alloc_exception(eng, fr, ins, st, name, argv):
@@ -73,6 +90,9 @@ BASE_STUBS = {
     '_ZdlPv': stub_noop, '_ZdaPv': stub_noop, '_ZdlPvm': stub_noop,
     '__cxa_throw': stub_throw, '__cxa_allocate_exception': stub_alloc_exception, '__cxa_free_exception': stub_noop,
     '_ZSt20__throw_length_errorPKc': stub_throw, '_ZSt17__throw_bad_allocv': stub_throw, '_ZSt24__throw_out_of_range_fmtPKcz': stub_throw,
+    '__cxa_get_exception_ptr': stub_first_arg, '_ZNSt11logic_errorC2ERKS_': stub_noop, '_ZNSt11logic_errorD2Ev': stub_noop, '_ZNSt11logic_errorC1ERKS_': stub_noop, '_ZNSt11logic_errorD1Ev': stub_noop,
+    '_ZNSt13runtime_errorC2ERKS_': stub_noop, '_ZNSt13runtime_errorD2Ev': stub_noop, '_ZNSt16invalid_argumentD2Ev': stub_noop, '_ZNSt16invalid_argumentC1ERKS_': stub_noop, '_ZNSt16invalid_argumentD1Ev': stub_noop,
+    '_ZNSt13runtime_errorC1ERKS_': stub_noop, '_ZNSt13runtime_errorD1Ev': stub_noop, '_ZNSt12out_of_rangeC1ERKS_': stub_noop, '_ZNSt12out_of_rangeD1Ev': stub_noop,
     '__cxa_begin_catch': stub_noop, '__cxa_end_catch': stub_noop, '__cxa_rethrow': stub_throw,
     'printf': stub_noop, 'putchar': stub_noop, 'puts': stub_noop,
     '_ZNSt16_Sp_counted_baseILN9__gnu_cxx12_Lock_policyE2EE24_M_release_last_use_coldEv': stub_noop,
